@@ -323,3 +323,58 @@ func TestConnectionLevelBehaviours(t *testing.T) {
 		}
 	}
 }
+
+// The PLAY answer and the first frames leave in one write: a reader that takes
+// exactly one read() sees the end of the answer and frame bytes together.
+func TestGluedPlayAnswer(t *testing.T) {
+	frames := SimpleFrames(20, false)
+	sc := Script{SDP: sessionLevel + "m=video 0 RTP/AVP 96\r\na=control:streamid=0\r\n", Frames: frames, Initial: 2, GluePlay: 5, GlueKeepAlive: 3, KeepAliveGlues: 1}
+	cam, _ := Start(sc)
+	defer cam.Close()
+	m := dial(t, cam)
+	defer m.nc.Close()
+	base := "rtsp://" + cam.HostPort() + "/x"
+	m.do("OPTIONS", base, "")
+	m.do("DESCRIBE", base, "")
+	m.do("SETUP", base+"/streamid=0", "Transport: RTP/AVP/TCP;unicast;interleaved=0-1\r\n")
+	m.nc.Write([]byte("PLAY " + base + " RTSP/1.0\r\nCSeq: 9\r\nSession: 4F3A9C21\r\n\r\n"))
+	var want []byte
+	for _, f := range frames[:5] {
+		ch := 0
+		if f.Control {
+			ch = 1
+		}
+		want = append(want, Interleave(ch, f.Data)...)
+	}
+	buf := make([]byte, 65536)
+	m.nc.SetReadDeadline(time.Now().Add(5 * time.Second))
+	n, err := m.nc.Read(buf) // raw socket: one read
+	if err != nil {
+		t.Fatal(err)
+	}
+	i := bytes.Index(buf[:n], []byte("\r\n\r\n"))
+	if i < 0 || !bytes.HasPrefix(buf[:n], []byte("RTSP/1.0 200 OK")) || !bytes.Equal(buf[i+4:n], want) {
+		t.Fatalf("one read gave %d bytes; answer ends at %d; %d frame bytes wanted behind it", n, i, len(want))
+	}
+	// keep-alive answer glued to the next three frames
+	m.nc.Write([]byte("OPTIONS " + base + " RTSP/1.0\r\nCSeq: 10\r\nSession: 4F3A9C21\r\n\r\n"))
+	want = nil
+	for _, f := range frames[5:8] {
+		ch := 0
+		if f.Control {
+			ch = 1
+		}
+		want = append(want, Interleave(ch, f.Data)...)
+	}
+	n, err = m.nc.Read(buf)
+	if err != nil {
+		t.Fatal(err)
+	}
+	i = bytes.Index(buf[:n], []byte("\r\n\r\n"))
+	if i < 0 || !bytes.Equal(buf[i+4:n], want) {
+		t.Fatalf("keep-alive: one read gave %d bytes, answer ends at %d, %d frame bytes wanted", n, i, len(want))
+	}
+	if rec := cam.Conns()[0]; rec.GluedWithPlay != 5 || rec.GluedWithKeepAlive != 3 || cam.NextFrame(0) != 8 {
+		t.Fatalf("record %+v next %d", rec, cam.NextFrame(0))
+	}
+}
